@@ -522,7 +522,7 @@ def writeItem (U : UnicodeOps) (cfg : Cfg) (it : RustItem) (st : St) : Outcome (
   | .struct s => writeStruct U cfg s st
   | .enum e => writeEnum U cfg e st
   | .alias a => writeAlias U cfg a st
-  | .const _ => .panic s%"swift.rs:268"     -- `write_const` is `todo!()`
+  | .const _ => .err (.formatError s%"ConstUnsupported")   -- an io error since the `fix:` commit bf55905 (was `todo!()`)
 
 def writeItems (U : UnicodeOps) (cfg : Cfg) : List RustItem → St → Outcome (Str × St)
   | [], st => .ok ([], st)
